@@ -25,6 +25,9 @@ def harnesses(tier, seed):
         for ty, term in (("MF", "reduce_xor"), ("FMF", "reduce_add"), ("FLF", "reduce_xor")):
             for c in (1, 2):
                 hs.append(h(term, ty, "slice", 4, 2, c))
+        # more chunks than workers x chunk size: a worker that stops pulling early loses the tail
+        hs.append(h("reduce_add", "FMF", "slice", 5, 2, 2))
+        hs.append(h("reduce_xor", "MF", "slice", 5, 2, 2))
         hs.append(h("min_by_key", "MF", "slice", 4, 2, 1))
         hs.append(h("max", "FM", "slice", 4, 2, 2))
         hs.append(h("sum", "F", "slice", 4, 2, 1))
